@@ -136,7 +136,13 @@ class P:
         self.eat("fn")
         name = self.eat()
         if self.peek() == "<":
-            raise Unsupported("generic function")
+            d = 0                              # generic parameters: skipped (types are not translated)
+            while True:
+                x = self.eat()
+                d += x == "<"
+                d -= x == ">"
+                if d == 0:
+                    break
         self.eat("(")
         params = []
         while self.peek() != ")":
@@ -212,6 +218,13 @@ class P:
                     self.eat(";")
                     e = ("opaque",)
                 stmts.append(("let", n, e))
+                continue
+            if self.peek() == "return":
+                self.eat()
+                e = self.expr()
+                if self.peek() == ";":
+                    self.eat()
+                stmts.append(("return", e))
                 continue
             e = self.expr(stmt=True)
             if self.peek() in ("=", "+=", "-=", "|=", "&=", "*="):
@@ -442,6 +455,8 @@ class Tr:
     # returns (gallina term, type)
     def e(self, x):
         k = x[0]
+        if k in ("call", "bin") and self.ctx.opaque and self.text(x) in self.ctx.opaque:
+            return self.ctx.opaque[self.text(x)]
         if k == "int":
             return str(x[1]), "N"
         if k == "bool":
@@ -546,8 +561,12 @@ class Tr:
             return "::".join(x[1])
         if x[0] == "field":
             return self.text(x[1]) + "." + x[2]
-        if x[0] == "mcall" and not x[3]:
-            return self.text(x[1]) + "." + x[2] + "()"
+        if x[0] == "mcall":
+            return self.text(x[1]) + "." + x[2] + "(" + ", ".join(self.text(a) for a in x[3]) + ")"
+        if x[0] == "call":
+            return "::".join(x[1]) + "(" + ", ".join(self.text(a) for a in x[2]) + ")"
+        if x[0] == "bin":
+            return self.text(x[2]) + " " + x[1] + " " + self.text(x[3])
         return "?"
 
     def call(self, f, args):
@@ -626,17 +645,62 @@ class Tr:
         raise Unsupported("operator %s" % op)
 
     # a block: statements threaded as nested lets; returns (term, type)
-    def blk(self, b, result=None):
+    @staticmethod
+    def has_return(b):
+        if b is None:
+            return False
+        if b[0] == "if":
+            return Tr.has_return(b[2]) or Tr.has_return(b[3])
+        if b[2] is not None and b[2][0] == "if" and Tr.has_return(b[2]):
+            return True
+        return any(s[0] == "return" or (s[0] == "expr" and s[1][0] == "if" and Tr.has_return(s[1])) for s in b[1])
+
+    def blk(self, b, result=None, cont=None):
+        """cont: what follows this block when control falls off its end (used for blocks of a statement-`if` that contains a `return`)"""
         _, stmts, tail = b
+        if cont is not None and tail is not None and tail[0] == "if":
+            stmts, tail = stmts + [("expr", tail)], None
         saved_env, saved_lets = dict(self.env), list(self.lets)
         pre = []
-        for s in stmts:
+
+        def close(t, ty):
+            for n, v in reversed(pre):
+                t = "(let %s := %s in %s)" % (n, v, t)
+            self.env, self.lets = saved_env, saved_lets
+            return t, ty
+        for i, s in enumerate(stmts):
+            if s[0] == "return":
+                t, ty = self.e(s[1])
+                return close(t, ty)
+            if s[0] == "expr" and s[1][0] == "if" and Tr.has_return(s[1]):
+                # `if c { .. return e; .. } [else ..]` followed by the rest: the rest is the continuation of both branches
+                rest = ("block", stmts[i + 1:], tail)
+                follow = lambda: self.blk(rest, result, cont)
+                _, c, th, el = s[1]
+                cc, _ = self.e(c)
+                self.path.append(cc)
+                a, aty = self.blk(th, None, follow)
+                self.path.pop()
+                self.path.append("negb (%s)" % cc)
+                if el is None:
+                    bb, bty = follow()
+                elif el[0] == "block" and not el[1] and el[2] is not None and el[2][0] == "if":
+                    bb, bty = self.blk(("block", [("expr", el[2])], None), None, follow)
+                else:
+                    bb, bty = self.blk(el, None, follow)
+                self.path.pop()
+                return close("(if %s then %s else %s)" % (cc, a, bb), aty if "?" not in aty else bty)
             if s[0] == "let" and s[2][0] == "opaque":
                 if s[1] not in self.env:
                     raise Unsupported("opaque initialiser of `%s`" % s[1])
                 continue                      # supplied as a parameter
             if s[0] == "let":
-                v, ty = self.e(s[2])
+                try:
+                    v, ty = self.e(s[2])
+                except Unsupported:
+                    if s[1] in self.env:
+                        continue              # outside the subset, and supplied as a parameter
+                    raise
                 pre.append((s[1], v))
                 self.lets.append((s[1], v))
                 self.env[s[1]] = ty
@@ -652,16 +716,17 @@ class Tr:
                     self.env[n] = ty
             else:
                 raise Unsupported("statement %r" % (s[0],))
-        if result is not None:
+        if cont is not None:
+            if tail is not None:
+                raise Unsupported("value at the end of a statement block")
+            t, ty = cont()
+        elif result is not None:
             t, ty = self.e(("path", [result]))
         elif tail is not None:
             t, ty = self.e(tail)
         else:
             raise Unsupported("block without a value")
-        for n, v in reversed(pre):
-            t = "(let %s := %s in %s)" % (n, v, t)
-        self.env, self.lets = saved_env, saved_lets
-        return t, ty
+        return close(t, ty)
 
     def assign(self, s):
         _, lhs, op, rhs = s
